@@ -10,21 +10,41 @@ use rayon::prelude::*;
 use refmodels::isaac::{Isaac, Isaac64};
 use serde_json::json;
 
-/// serde image of the core of a freshly built ISAAC generator (the tail of the BlockRng image)
-fn isaac_core_image(g: &dyn Gen, is64: bool) -> Option<Vec<u8>> {
-    let img = g.ser()?;
-    let core_len = if is64 { 256 * 8 + 24 } else { 256 * 4 + 12 };
-    if img.len() < core_len {
-        return None;
+/// Is the freshly built ISAAC generator `g` the one the reference model describes? Decided without
+/// assuming where the core sits in the serde image: the reference core image must occur in the image
+/// (whatever other fields the generator serialises around it); failing that, a copy restored from the
+/// image must produce the reference stream for two blocks.
+fn isaac_is(ty: &dyn GenType, g: &dyn Gen, ref_core_image: &[u8], mut ref_stream: impl FnMut() -> u64, is64: bool) -> bool {
+    let Some(img) = g.ser() else { return false };
+    if img.len() >= ref_core_image.len() && img.windows(ref_core_image.len()).any(|w| w == ref_core_image) {
+        return true;
     }
-    Some(img[img.len() - core_len..].to_vec())
+    if ty.info().family == Family::Core {
+        return false; // a bare core's image is its core image
+    }
+    match ty.de(&img) {
+        Some(Ok(mut copy)) => (0..520).all(|_| {
+            let e = ref_stream();
+            let v = if is64 { copy.next_u64() } else { copy.next_u32() as u64 };
+            v == e
+        }),
+        _ => false,
+    }
 }
 
 /// Does `g` equal the generator the documented route builds from `bytes` (one seed's worth)?
 fn equals_from_bytes(ty: &dyn GenType, g: &dyn Gen, bytes: &[u8]) -> bool {
     match fam(ty) {
-        Family::Isaac => isaac_core_image(g, false) == Some(Isaac::from_full_bytes(bytes).core_image()),
-        Family::Isaac64 => isaac_core_image(g, true) == Some(Isaac64::from_full_bytes(bytes).core_image()),
+        Family::Isaac => {
+            let mut m = Isaac::from_full_bytes(bytes);
+            let img = m.core_image();
+            isaac_is(ty, g, &img, || m.rand() as u64, false)
+        }
+        Family::Isaac64 => {
+            let mut m = Isaac64::from_full_bytes(bytes);
+            let img = m.core_image();
+            isaac_is(ty, g, &img, || m.rand(), true)
+        }
         _ => g.eq_dyn(ty.from_seed(bytes).as_ref()) == Some(true),
     }
 }
@@ -77,8 +97,16 @@ pub fn run(reg: &dyn Registry, ctx: &Ctx) -> Outcome {
                     }
                 };
                 let ok = match family {
-                    Family::Isaac => isaac_core_image(g.as_ref(), false) == Some(Isaac::from_u64(x).core_image()),
-                    Family::Isaac64 => isaac_core_image(g.as_ref(), true) == Some(Isaac64::from_u64(x).core_image()),
+                    Family::Isaac => {
+                        let mut m = Isaac::from_u64(x);
+                        let img = m.core_image();
+                        isaac_is(*ty, g.as_ref(), &img, || m.rand() as u64, false)
+                    }
+                    Family::Isaac64 => {
+                        let mut m = Isaac64::from_u64(x);
+                        let img = m.core_image();
+                        isaac_is(*ty, g.as_ref(), &img, || m.rand(), true)
+                    }
                     _ => g.eq_dyn(ty.from_seed(&expansion(*ty, x)).as_ref()) == Some(true),
                 };
                 if !ok {
@@ -116,6 +144,9 @@ pub fn run(reg: &dyn Registry, ctx: &Ctx) -> Outcome {
             scripts.push((0..n).map(|i| (i % 251 + 1) as u8).collect());
             scripts.push(vec![0xff; n]);
             scripts.push(alphabet::bg_bytes(ctx.seed, 0x0902, n));
+            if !is_isaac && info.linear_bits.is_some() {
+                scripts.extend(crate::linear::special_images(n * 8, info.word_bits, ctx.seed ^ 0x09).into_iter().map(|v| v.to_bytes()));
+            }
             if !is_isaac {
                 // blocks made of documented constants (e.g. XorShiftRng's zero-seed preset) are ordinary seeds
                 scripts.extend(super::common::documented_constant_seeds(*ty).into_iter().filter(|s| s.iter().any(|&b| b != 0)));
@@ -234,7 +265,49 @@ pub fn run(reg: &dyn Registry, ctx: &Ctx) -> Outcome {
             }
         })
         .collect();
-    ctx.set("evaluations", ctx.get("u64_arguments") + ctx.get("source_scripts") + ctx.get("fault_executions") + ctx.get("cube_elements"));
+    // one generator of the crates seeded from another (from_rng(&mut parent)), then both used: the child
+    // must be the generator of exactly the bytes a twin of the parent delivers through fill_bytes, and
+    // the parent must continue exactly like that twin
+    {
+        let all = reg.types();
+        let pairs: Vec<(usize, usize)> = (0..all.len()).flat_map(|c| (0..all.len()).map(move |p| (c, p))).collect();
+        let _: Vec<()> = pairs
+            .par_iter()
+            .map(|&(ci, pi)| {
+                let (cty, pty) = (all[ci], all[pi]);
+                let n = source_len(cty);
+                for (tag, pre) in [(0u64, 0usize), (1, 3)] {
+                    let pseed = alphabet::bg_bytes(ctx.seed, 0x09F0 + tag + ((pi as u64) << 8), pty.info().seed_len);
+                    let mut parent = pty.from_seed(&pseed);
+                    let mut twin = pty.from_seed(&pseed);
+                    for _ in 0..pre {
+                        parent.next_u32();
+                        twin.next_u32();
+                    }
+                    let mut bytes = vec![0u8; n];
+                    twin.fill_bytes(&mut bytes);
+                    ctx.add("generator_as_source", 1);
+                    let rp = json!({"kind":"note","child":cty.info().name,"parent":pty.info().name,"parent_seed":hex(&pseed),"parent_u32_calls_before":pre});
+                    let child = match guarded(|| cty.from_rng_of(parent.as_mut())) {
+                        Ok(c) => c,
+                        Err(o) => {
+                            ctx.violation(&format!("C09:{}:panic", cty.info().name), &format!("{}: from_rng(&mut {}) panicked: {:?}", cty.info().name, pty.info().name, o), rp);
+                            continue;
+                        }
+                    };
+                    if bytes.iter().any(|&b| b != 0) && !equals_from_bytes(cty, child.as_ref(), &bytes) {
+                        ctx.violation(&format!("C09:{}:from_rng-result", cty.info().name), &format!("{}: from_rng(&mut {}) did not build the generator of the {} bytes the parent delivers", cty.info().name, pty.info().name, n), rp.clone());
+                    }
+                    let after: Vec<u64> = (0..4).map(|_| parent.next_u64()).collect();
+                    let want: Vec<u64> = (0..4).map(|_| twin.next_u64()).collect();
+                    if after != want && bytes.iter().any(|&b| b != 0) {
+                        ctx.violation(&format!("C09:{}:from_rng-consumption", cty.info().name), &format!("{}: after from_rng(&mut {}) the parent continues with {:x?}, a twin that delivered one seed's worth ({} bytes) through fill_bytes continues with {:x?}", cty.info().name, pty.info().name, after, n, want), rp);
+                    }
+                }
+            })
+            .collect();
+    }
+    ctx.set("evaluations", ctx.get("u64_arguments") + ctx.get("source_scripts") + ctx.get("fault_executions") + ctx.get("cube_elements") + ctx.get("generator_as_source"));
     ctx.set_exhaustive(true);
     Outcome {
         level: "fault_enumeration",
